@@ -723,9 +723,23 @@ def check(ctx, rep):
         problems = []
         n_split = 0
         funcs = [hw] + [g for g, _, _, _ in helper_calls(prog, ctx.resolver, hw, wap, depth=2)]
+        # module-level helpers (generators) that are handed the buffer: their parameter is the buffer
+        preset = {}
+        hw_bufs = {t.id for d in ast.walk(hw.node) if isinstance(d, ast.Assign) and isinstance(d.value, ast.Call)
+                   and (dotted(d.value.func) or "").split(".")[-1] == "BytesIO" for t in d.targets if isinstance(t, ast.Name)}
+        for c_ in ast.walk(hw.node):
+            if isinstance(c_, ast.Call) and any(isinstance(a_, ast.Name) and a_.id in hw_bufs for a_ in c_.args):
+                t_ = ctx.resolver.resolve(c_, hw, wap)
+                if t_ is not None and t_.kind == "repo" and len(t_.funcs) == 1 and t_.funcs[0] is not None and t_.funcs[0].cls is None:
+                    g_ = t_.funcs[0]
+                    for p_, a_ in zip(g_.params, c_.args):
+                        if isinstance(a_, ast.Name) and a_.id in hw_bufs:
+                            preset.setdefault(g_, set()).add(p_)
+                    if g_ not in funcs:
+                        funcs.append(g_)
         for fn in funcs:
             # binary buffers: locals assigned from io.BytesIO()
-            bufs = set()
+            bufs = set(preset.get(fn, ()))
             for d in ast.walk(fn.node):
                 if isinstance(d, ast.Assign) and isinstance(d.value, ast.Call) and (dotted(d.value.func) or "").split(".")[-1] == "BytesIO":
                     bufs.update(t.id for t in d.targets if isinstance(t, ast.Name))
